@@ -165,9 +165,9 @@ def jobs_for(prop, tier, seed):
         J += shard_jobs(prop, seed, ["tight", "--mode", "last-receiver"], 1, s, "last-receiver", base=90)
         J += shard_jobs(prop, seed, ["tight", "--mode", "handle-count"], 1, s, "handle-count", base=92)
     elif prop == "C12":
-        J += conc(prop, seed, ["handle-churn"], n - 8, s)
-        J += shard_jobs(prop, seed, ["tight", "--mode", "handle-count"], 2, s, "handle-count", base=90)
-        J += shard_jobs(prop, seed, ["wake"], 2, s, "wake", base=95)
+        J += conc(prop, seed, ["handle-churn"], n - 6, s)
+        J += shard_jobs(prop, seed, ["tight", "--mode", "handle-count"], 1, s, "handle-count", base=90)
+        J += shard_jobs(prop, seed, ["wake"], 1, s, "wake", base=95)
         # long free-running executions: windows that contain no hook site are only reachable through
         # natural pre-emption on the (deliberately oversubscribed) machine
         J += conc(prop, seed, ["handle-churn"], 4, s, label="long", base=80, extra=[["--long"]])
